@@ -1,7 +1,9 @@
 """Scheduler group: nothing is regenerated (the model is hand written and tied by correspondence);
 the fingerprints of the mirrored Python definitions escalate the correspondence budget when
 they change."""
-GENERATORS = []
+from tools.gen_schednodes import gen_schednodes
+
+GENERATORS = [gen_schednodes]
 
 MIRRORED = [
     ('pl/schedule.py', 'organize'),
